@@ -2359,17 +2359,19 @@ impl KotoVm {
         rhs: KValue,
         op: KValue,
     ) -> Result<bool> {
+        // The registers used for the call need to be discarded once it has finished,
+        // frames with an execution barrier don't shrink the register stack when popped.
+        let register_count = self.registers.len();
         self.call_overridden_op_2(None, lhs, rhs, op)?;
         self.frame_mut().execution_barrier = true;
-        match self.execute_instructions() {
-            Ok(result) => match result {
-                KValue::Bool(result) => Ok(result),
-                unexpected => unexpected_type("Bool", &unexpected),
-            },
-            Err(error) => {
-                self.pop_frame(KValue::Null)?;
-                Err(error)
-            }
+        let result = self.execute_instructions();
+        if result.is_err() {
+            self.pop_frame(KValue::Null)?;
+        }
+        self.registers.truncate(register_count);
+        match result? {
+            KValue::Bool(result) => Ok(result),
+            unexpected => unexpected_type("Bool", &unexpected),
         }
     }
 
@@ -4254,6 +4256,10 @@ mod macros {
         ($self:expr, $op:ident, $op_rhs:ident, $trait_fn:ident, $trait_fn_rhs:ident, $map:expr, $lhs:expr, $rhs:expr, $result_register:expr) => {{
             let op = $map.get_meta_value(&$op.into()).unwrap();
 
+            // The registers used for the call need to be discarded once it has finished,
+            // frames with an execution barrier don't shrink the register stack when popped.
+            let register_count = $self.registers.len();
+
             // Call the map's op function
             $self.call_overridden_op_2(
                 Some($result_register),
@@ -4266,10 +4272,14 @@ mod macros {
             // - Enable the execution barrier on the function's frame so errors aren't propagated
             $self.frame_mut().execution_barrier = true;
             match $self.execute_instructions() {
-                Ok(result) => result,
+                Ok(result) => {
+                    $self.registers.truncate(register_count);
+                    result
+                }
                 Err(error) => {
                     // Pop the frame given that an error has been thrown
                     $self.pop_frame(KValue::Null)?;
+                    $self.registers.truncate(register_count);
                     // Check for a `koto.unimplemented` error
                     let ErrorKind::KotoError { thrown_value, .. } = &error.error else {
                         // A non-unimplemented error was thrown, so propagate it
